@@ -403,7 +403,7 @@ func (SyllableChordConverter) newScaleNote(v *ast.ChordDegree) (*op.ScaleNote, e
 	}
 	accidental := op.Natural
 	if x := v.Accidental; x != nil {
-		accidental = op.NewAccidental(x.Value())
+		accidental = op.NewAccidental(accidentalMark(x.Value()))
 	}
 	return &op.ScaleNote{
 		Name:       name,
@@ -441,11 +441,23 @@ func (c DegreeChordConverter) Convert(v *ast.Chord) (*input.Chord, error) {
 func (DegreeChordConverter) convertDegree(v *ast.ChordDegree) (note.Degree, error) {
 	s := v.Degree.Value()
 	if x := v.Accidental; x != nil {
-		s += x.Value()
+		s += accidentalMark(x.Value())
 	}
 	d, err := note.ParseDegree(s)
 	if err != nil {
 		return d, fmt.Errorf("%w: Degree is not uint %v", err, v.Degree)
 	}
 	return d, nil
+}
+
+// accidentalMark returns the ASCII mark of an accidental token: the lexer accepts the Unicode signs as well.
+func accidentalMark(s string) string {
+	switch s {
+	case "♯":
+		return "#"
+	case "♭":
+		return "b"
+	default:
+		return s
+	}
 }
